@@ -1459,6 +1459,10 @@ func (r *Runtime) RunProgram(p *Program) (result Value, err error) {
 			if ex := asUncatchableException(x); ex != nil {
 				err = ex
 				if len(vm.callStack) == 0 {
+					// same as on the normal return path below: a stale program left here
+					// would show up as an extra frame in later stack traces
+					vm.prg = nil
+					vm.sb = -1
 					r.leaveAbrupt()
 				}
 			} else {
